@@ -14,7 +14,7 @@ def oracle(case, rec, group):
 
 
 def run(tier, seed):
-    return tracecheck.run(PID, tier, seed, PROFILE, oracle, n_quick=450, n_thorough=6000, mask=1 | 4 | 32,
+    return tracecheck.run(PID, tier, seed, PROFILE, oracle, n_quick=450, n_thorough=6000, mask=1 | 4 | 32, mutation_oracle=True,
                           extra_assumptions=["C04_coherent_on_final_witness_partial assumes scoped_cmds (computed and checked true on every case of this run)",
                                              "the recorder's assignment is what a file-writing backend would be handed (C10-C12 check the files)"])
 
